@@ -70,12 +70,14 @@ def pattern_layer(ctx):
             # permuted key order and DISTINCT / LIMIT on projections
             perm = rng.shuffle(list(range(k)))
             order = [ast.OrderBy(ast.Column('k%d' % j), ast.Ordering(rng.below(2))) for j in perm]
-            for distinct in (None, True):
-                for limit in (None, 0, 1, 5, len(table.rows), len(table.rows) + 3):
-                    targets = [ast.Target(ast.Column('k%d' % j), None) for j in range(k)]
-                    sel = ast.Select(targets, ast.Table('t'), None, None, order, None, limit, distinct)
-                    SqlCase([table], sel, name='distinct-limit').check(ctx)
-                    ctx.count('limit:%s' % limit)
+            # ... and ordered on only some of the visible columns: equal visible rows are then not next to each other
+            for order_ in ([order, order[:1]] if k >= 2 else [order]):
+                for distinct in (None, True):
+                    for limit in (None, 0, 1, 5, len(table.rows), len(table.rows) + 3):
+                        targets = [ast.Target(ast.Column('k%d' % j), None) for j in range(k)]
+                        sel = ast.Select(targets, ast.Table('t'), None, None, order_, None, limit, distinct)
+                        SqlCase([table], sel, name='distinct-limit').check(ctx)
+                        ctx.count('limit:%s' % limit)
 
 
 def random_layer(ctx, ncases):
@@ -173,6 +175,15 @@ CORPUS = [
     'SELECT s, count(*) AS n FROM #t GROUP BY s ORDER BY n LIMIT 0',
     'SELECT s FROM (SELECT s, i FROM #t LIMIT 0)',
     'SELECT s, i FROM #t ORDER BY i LIMIT 100',
+    # the order a subquery gives its rows is the order the enclosing statement reads them in
+    'SELECT s FROM (SELECT s, i FROM #t ORDER BY i DESC)',
+    'SELECT s, t FROM (SELECT s, t, i FROM #t ORDER BY s DESC, i) ORDER BY t',
+    'SELECT DISTINCT t FROM (SELECT t, i FROM #t ORDER BY i DESC)',
+    'SELECT s FROM (SELECT s, i FROM #t ORDER BY i DESC) LIMIT 2',
+    'SELECT s, i FROM (SELECT s, i FROM #t ORDER BY j DESC) WHERE i > 3',
+    # ordered on one of two visible columns: equal rows are not neighbours
+    'SELECT DISTINCT t, s FROM #t ORDER BY t',
+    'SELECT DISTINCT t, s FROM #t ORDER BY t DESC LIMIT 3',
 ]
 
 
